@@ -449,13 +449,13 @@ type legacyInst struct {
 
 type tokens struct {
 	access, refresh, id, code string
-	jwtAccess                string
+	jwtAccess                 string
 }
 
 func (w *world) codeFlow(clientID, redirect string) (code string) {
 	f := w.backend
 	q := url.Values{"client_id": {clientID}, "redirect_uri": {redirect}, "response_type": {"code"},
-		"scope": {"openid profile offline_access"}, "state": {"st"}, "nonce": {"n1"}}
+		"scope": {"openid profile offline_access"}, "state": {"st"}}
 	_, id := f.Authorize(opfix.Provider, q)
 	f.Store.Login(id, "alice")
 	cb := f.Callback(opfix.Provider, id)
@@ -478,10 +478,12 @@ type bareCaller struct {
 	c *http.Client
 }
 
-func (b bareCaller) TokenEndpoint() string                  { return opfix.Issuer + "/oauth/token" }
-func (b bareCaller) HttpClient() *http.Client               { return b.c }
-func (b bareCaller) GetRevokeEndpoint() string              { return opfix.Issuer + "/revoke" }
-func (b bareCaller) GetEndSessionEndpoint() string          { return opfix.Issuer + "/end_session" }
-func (b bareCaller) GetDeviceAuthorizationEndpoint() string { return opfix.Issuer + "/device_authorization" }
+func (b bareCaller) TokenEndpoint() string         { return opfix.Issuer + "/oauth/token" }
+func (b bareCaller) HttpClient() *http.Client      { return b.c }
+func (b bareCaller) GetRevokeEndpoint() string     { return opfix.Issuer + "/revoke" }
+func (b bareCaller) GetEndSessionEndpoint() string { return opfix.Issuer + "/end_session" }
+func (b bareCaller) GetDeviceAuthorizationEndpoint() string {
+	return opfix.Issuer + "/device_authorization"
+}
 
 var bg = context.Background()
